@@ -19,7 +19,7 @@ var c15Seps = []string{" ", " - ", " | ", " » ", " / ", " > ", " \\ ", ": ", "-
 
 var c15H1 = []string{"absent", "title", "part", "other"}
 var c15H2 = []string{"absent", "title", "other"}
-var c15Markup = []string{"absent", "schema", "og", "og-unqualified", "og-padded", "ie-padded"}
+var c15Markup = []string{"absent", "schema", "og", "og-unqualified", "og-padded", "ie-padded", "og-optout"}
 
 func c15Title(ws, ss []int) string {
 	var sb strings.Builder
@@ -67,6 +67,9 @@ func c15Doc(title, h1, h2, markup string) string {
 		head.WriteString("<meta name=\"title\" content=\" Markup Title Words  \">")
 	case "og-unqualified":
 		head.WriteString("<meta property=\"og:type\" content=\"article\"><meta property=\"og:title\" content=\"Markup Title Words\"><meta property=\"og:url\" content=\"http://x.example/\">")
+	case "og-optout":
+		// complete OpenGraph block on a page that opts out: MarkupInfo is empty, so no markup title
+		head.WriteString("<meta name=\"IE_RM_OFF\" content=\"true\"><meta property=\"og:type\" content=\"article\"><meta property=\"og:title\" content=\"Markup Title Words\"><meta property=\"og:url\" content=\"http://x.example/\"><meta property=\"og:image\" content=\"http://x.example/i.jpg\">")
 	case "schema":
 		body = "<div itemscope itemtype=\"http://schema.org/Article\"><span itemprop=\"headline\">Markup Title Words</span></div>"
 	}
@@ -91,6 +94,7 @@ func c15Doc(title, h1, h2, markup string) string {
 }
 
 func c15Enumerate(tier string, emit func(*eng.Case)) {
+	crossEmit("C15", tier, "xtitle", 1, emit)
 	maxWordsAll, maxWords := 2, 3
 	if tier == "thorough" {
 		maxWordsAll, maxWords = 3, 4
@@ -105,7 +109,7 @@ func c15Enumerate(tier string, emit func(*eng.Case)) {
 						if len(ws) > maxWordsAll && !(h2 == "absent" && (mk == "absent" || mk == "schema")) {
 							continue
 						}
-						if len(ws) > 1 && (mk == "og-padded" || mk == "ie-padded") && h1 != "absent" {
+						if len(ws) > 1 && (mk == "og-padded" || mk == "ie-padded" || mk == "og-optout") && h1 != "absent" {
 							continue
 						}
 						emit(&eng.Case{Kind: "title", P: map[string]string{"title": title, "h1": h1, "h2": h2, "markup": mk,
@@ -138,7 +142,9 @@ func c15Render(c *eng.Case) string {
 
 func c15Check(c *eng.Case) *eng.Outcome {
 	o := &eng.Outcome{}
-	c.HTML = c15Render(c)
+	if c.Kind != "xtitle" {
+		c.HTML = c15Render(c)
+	}
 	a := analyse(c, o)
 	if a == nil {
 		return o
@@ -250,11 +256,12 @@ func init() {
 	eng.Register(&eng.Prop{
 		ID:        "C15",
 		DesignRef: "§5 C15",
-		Rule: "all <title> strings word(sep word)* with <= 3 (quick) / <= 4 (thorough) words over 7 words (3 short, one containing a .com domain, a 26-character filler, a 110-character/200-byte Cyrillic sentence, a 180-character filler) and 11 separators (incl. NBSP) (' ', ' - ', ' | ', ' » ', ' / ', ' > ', ' \\ ', ': ', '-', apostrophe) x h1 {absent, = title, = longest part, other} x h2 {absent, = title, other} x markup title {absent, schema.org headline, OpenGraph qualified, OpenGraph unqualified, OpenGraph and IE titles padded with whitespace/NBSP}; the full variant product for titles of <= 2 / <= 3 words, h1 x {no markup, schema} for the longest titles. " +
-			"Oracle: MarkupInfo.Title non-empty => Title equals it; else Title is a contiguous part of the normalised <title> or the first h1, non-empty when <title> is, and exactly <title> when that is 15-150 characters with no separator pattern; no h1/h2/h3/p whose text equals Title is emitted in Text or result.Node. " +
+		Rule: "all <title> strings word(sep word)* with <= 3 (quick) / <= 4 (thorough) words over 7 words (3 short, one containing a .com domain, a 26-character filler, a 110-character/200-byte Cyrillic sentence, a 180-character filler) and 11 separators (incl. NBSP) (' ', ' - ', ' | ', ' » ', ' / ', ' > ', ' \\ ', ': ', '-', apostrophe) x h1 {absent, = title, = longest part, other} x h2 {absent, = title, other} x markup title {absent, schema.org headline, OpenGraph qualified, OpenGraph unqualified, OpenGraph and IE titles padded with whitespace/NBSP, qualified OpenGraph on a page that opts out}; the full variant product for titles of <= 2 / <= 3 words, h1 x {no markup, schema} for the longest titles. " +
+			crossRule + " Oracle: MarkupInfo.Title non-empty => Title equals it; else Title is a contiguous part of the normalised <title> or the first h1, non-empty when <title> is, and exactly <title> when that is 15-150 characters with no separator pattern; no h1/h2/h3/p whose text equals Title is emitted in Text or result.Node. " +
 			"Non-trivial = a block equal to Title exists, or the heuristic changed the title.",
 		Enumerate: c15Enumerate,
 		Check:     c15Check,
+		Prepare:   func(tier string) { CrossCorpus(tier) },
 		Bounds: func(tier string) map[string]any {
 			if tier == "thorough" {
 				return map[string]any{"max_words": 4, "max_words_full_variants": 3, "words": len(c15Words), "separators": len(c15Seps)}
